@@ -9,7 +9,9 @@ What is proved here (for all inputs):
 * the two unbounded `while True` loops of the Jolt GJK cannot run forever: every continuing
   iteration contracts the squared length by the factor (1-ε) while it stays above tol², which
   gives the explicit bound `n·ε·tol² < |v₀|²`;
-* mesh hill climbing makes at most #vertices moves from any start vertex.
+* mesh hill climbing (after repair e900ae9) makes at most #vertices − 1 moves from any start
+  vertex — in exact reals and in ANY arithmetic whose `<` is a strict order with
+  `thr < a - b → b < a` (floating point included); before the repair it could cycle forever.
 What is NOT proved (see PARTIAL in harness/props/c19.py): "≤ 1000 support evaluations" for
 the unbounded loops (the measure above gives ~1e17, not 1000), termination of MPR's
 `_refine_portal` and of the original GJK's main loop; these are explored by the counting proxy.
@@ -87,17 +89,56 @@ theorem jolt_no_infinite_run (eps tolSq : ℝ) (h0 : 0 < eps) (h1 : eps < 1) (ht
     (s : ℕ → ℝ) (hs0 : 0 ≤ s 0) : ¬ ∀ k, Continues eps tolSq (s k) (s (k + 1)) :=
   no_infinite_run eps tolSq h0 h1 htol s hs0
 
-/-- **mesh hill climbing** makes at most `n` (= #vertices) moves from any start vertex, for any
-non-negative threshold, and stops at a vertex none of whose neighbours is better by more than
-the threshold. -/
+/-- **mesh hill climbing** (code after repair e900ae9, exact reals) makes at most `n − 1`
+(n = #vertices) moves from any start vertex, for any non-negative threshold, within fuel `n`, and
+stops at a vertex none of whose neighbours is better by more than the threshold. -/
 theorem hill_climbing_bound (proj : Nat → ℝ) (nbrs : Nat → List Nat) (thr : ℝ) (hthr : 0 ≤ thr)
     (n : Nat) (hn : ∀ i, i < n → ∀ j ∈ nbrs i, j < n) (i : Nat) (hi : i < n) :
-    ∃ r, hillClimb proj nbrs thr (n + 1) i 0 = some r ∧ r.2 ≤ n ∧ r.1 < n ∧
-      ∀ j ∈ nbrs r.1, ¬ (proj r.1 + thr < proj j) := by
-  have hc := better_card_le proj n i
-  obtain ⟨r, hr, hm, hrn, hloc⟩ :=
-    hillClimb_terminates proj nbrs thr hthr n hn (n + 1) i 0 hi (by omega)
-  exact ⟨r, hr, by omega, hrn, hloc⟩
+    ∃ r, hillClimb proj nbrs thr n i 0 = some r ∧ r.2 + 1 ≤ n ∧ r.1 < n ∧
+      ∀ j ∈ nbrs r.1, ¬ (proj r.1 + thr < proj j) :=
+  hillClimb_terminates proj nbrs thr hthr n hn i hi n (le_refl _)
+
+example :=
+  hill_climbing_bound (fun i => (i : ℝ)) (fun i => [(i + 1) % 3, (i + 2) % 3]) 0.5 (by norm_num) 3
+    (by intro i _ j hj; simp at hj; omega) 0 (by omega)
+
+/-- **mesh hill climbing terminates in ANY arithmetic** (the statement that covers floating
+point): for every scalar type `α` with arbitrary `-` and `<`, if `<` is irreflexive and transitive
+and `thr < a - b → b < a` (IEEE-754 comparison/subtraction for `thr ≥ 0` or NaN; with NaN operands
+every comparison is false and no move is accepted), the climb on the ONE computed projection per
+vertex makes at most `n − 1` moves within fuel `n`. Nothing is assumed about how the projections
+were computed. (Model-level version on the real data structures:
+`C03.hillClimb_terminates_strictOrder`.) -/
+theorem hill_climbing_bound_anyArith {α : Type} [Add α] [Sub α] [Mul α] [Div α] [Neg α] [LT α]
+    [LE α] [DecidableLT α] [DecidableLE α] [DecidableEq α] [OfNat α 0] [OfNat α 1] [OfNat α 2]
+    [OfScientific α] [Min α] [Max α] [HasSqrt α]
+    (proj : Nat → α) (nbrs : Nat → List Nat) (thr : α)
+    (lt_irrefl : ∀ a : α, ¬ a < a) (lt_trans : ∀ a b c : α, a < b → b < c → a < c)
+    (sub_pos : ∀ a b : α, thr < a - b → b < a)
+    (n : Nat) (hn : ∀ i, i < n → ∀ j ∈ nbrs i, j < n) (i : Nat) (hi : i < n) (fuel : Nat)
+    (hfuel : n ≤ fuel) :
+    ∃ r, hillClimb proj nbrs thr fuel i 0 = some r ∧ r.2 + 1 ≤ n ∧ r.1 < n ∧
+      ∀ j ∈ nbrs r.1, ¬ (thr < proj j - proj r.1) :=
+  hillClimb_terminates_strictOrder proj nbrs thr lt_irrefl lt_trans sub_pos n hn i hi fuel hfuel
+
+example :=
+  hill_climbing_bound_anyArith (α := Rat) (fun i => (i : Rat)) (fun i => [(i + 1) % 3, (i + 2) % 3]) 0
+    (fun a => lt_irrefl a) (fun _ _ _ h1 h2 => lt_trans h1 h2) (fun a b h => sub_pos.mp h) 3
+    (by intro i _ j hj; simp at hj; omega) 0 (by omega) 3 (le_refl _)
+
+/-- **the defect repaired by e900ae9 (F-mesh-hill-climb-cycle), abstractly**: before the repair the
+improvement was a separately computed quantity per ordered pair (`fl(d · fl(v_j − v_i))`); as soon
+as these exceed the threshold around a cycle — rounding noise of vertices with equal projections
+does — the climb exhausts every fuel. (Concrete arithmetic and mesh:
+`C03.hillClimb_asIs_before_fix_counterexample`.) -/
+theorem hill_climbing_asIs_before_fix_counterexample {β : Type} [LT β] [DecidableLT β]
+    (gain : Nat → Nat → β) (thr : β) (h01 : thr < gain 0 1) (h12 : thr < gain 1 2)
+    (h20 : thr < gain 2 0) (fuel : Nat) :
+    hillClimb_asIs_before_fix gain (fun i => [(i + 1) % 3]) thr fuel 0 0 = none :=
+  hillClimb_asIs_before_fix_cycles gain thr h01 h12 h20 fuel 0 0 (by omega)
+
+example : hillClimb_asIs_before_fix (fun _ _ => (2 : Int)) (fun i => [(i + 1) % 3]) 1 1000 0 0 = none :=
+  hill_climbing_asIs_before_fix_counterexample _ _ (by decide) (by decide) (by decide) 1000
 
 /-- non-vacuity: a concrete continuing step and a concrete exit of the modelled exit logic -/
 example : (distStep (1e-3 : Rat) 1e-6 100000 4 4 ⟨1, true, 1, false, 9⟩).1 = .unknown := by
